@@ -217,6 +217,30 @@ def heldMon (acquire release inner : A → Bool) : Mon := fun s e =>
 
 def alwaysHeld (acquire release inner : A → Bool) (sk : Sk) : Bool := (scan (heldMon acquire release inner) 4 sk [0]).isSome
 
+/-- "`second` never happens before a `first` has happened": state 0 = no `first` yet -/
+def orderMon (first second : Ev → Bool) : Mon := fun s e =>
+  if first e then some 1 else if second e && s == 0 then none else some s
+
+def precedes (first second : Ev → Bool) (sk : Sk) : Bool := (scan (orderMon first second) 4 sk [0]).isSome
+
+/-- the await of a callee with this name / the call of this name -/
+def isAwaitOf (n : String) : Ev → Bool
+  | .aw m => m == n
+  | .act _ => false
+
+def isCallOf (n : String) : Ev → Bool
+  | .act a => a.kind == .call && a.name == n
+  | .aw _ => false
+
+/-- "every iteration pays": state 1 = an iteration has started and has not yet paid (e.g. decremented its retry budget); starting
+the next iteration in that state is the violation -/
+def owesMon (iterStart pays : A → Bool) : Mon := fun s e =>
+  match e with
+  | .aw _ => some s
+  | .act a => if pays a then some 0 else if iterStart a then (if s == 0 then some 1 else none) else some s
+
+def everyIterationPays (iterStart pays : A → Bool) (sk : Sk) : Bool := (scan (owesMon iterStart pays) 4 sk [0]).isSome
+
 /-! ### "this piece of code never suspends" -/
 
 /-- number of suspension points in a skeleton -/
